@@ -21,6 +21,8 @@ S(t, v) == [t |-> t, v |-> v]
 Scalars8 == <<S("null", ""), S("bool", "true"), S("int", "0"), S("int", "1"), S("float", "1.5"), S("str", "a"), S("str", "ab"), S("str", "1")>>
 Scalars5 == <<S("null", ""), S("int", "1"), S("float", "1.5"), S("str", "a"), S("str", "1")>>
 Scalars3 == <<S("null", ""), S("int", "1"), S("str", "a")>>
+\* numbers that are equal across spellings and kinds: the boundary cells of <, <=, >, >=, = (C12's rules inside whole queries)
+ScalarsNum == <<S("int", "1"), S("float", "1.0"), S("float", "1.5"), S("str", "1"), S("int", "2")>>
 Keys4 == <<S("str", "a"), S("str", "b"), S("int", "0"), S("str", "0")>>
 Keys2 == <<S("str", "a"), S("str", "b")>>
 Keys3 == <<S("str", "a"), S("str", "b"), S("int", "0")>>
